@@ -40,11 +40,22 @@ pub enum Class {
     MultiViaGlobToNonDir,
     /// two sources with the same basename map onto one destination path (cp: "will not overwrite just-created")
     DuplicateTargets,
+    /// -r d ./d, -r ./d d, -r d <symlink to d>, -r d by/../d: a directory onto itself under another spelling
+    SameDirViaSpelling,
+    /// several sources, the destination is the own directory of one of them (xcp sub/f ... v0 .)
+    OwnDirAmongValid,
+    /// several sources with -r, one of them a directory whose mapped path dest/<name> is an existing regular file
+    DirOntoFileMapped,
+    /// --block-size 0 (also 0KB ...): a value that cannot be honoured
+    BlockSizeZero,
+    /// --glob given and one "pattern" is a literal name that does not exist, among valid ones
+    MissingSourceViaGlob,
 }
 const CLASSES: &[Class] = &[
     Class::NoArgs, Class::SinglePath, Class::MissingSource, Class::DirWithoutRecursive, Class::MultiToNonDir, Class::DirOntoFile, Class::SameAsDest, Class::SameAsDestBasename,
     Class::ForceNoClobber, Class::BadDriver, Class::BadReflink, Class::BadBackup, Class::BadBlockSize, Class::BadWorkers, Class::UnknownFlag, Class::BadGlob,
     Class::SameViaSymlink, Class::SameViaHardlink, Class::SameViaSpelling, Class::MultiViaGlobToNonDir, Class::DuplicateTargets,
+    Class::SameDirViaSpelling, Class::OwnDirAmongValid, Class::DirOntoFileMapped, Class::BlockSizeZero, Class::MissingSourceViaGlob,
 ];
 
 #[derive(Clone, Debug, Serialize, Deserialize)]
@@ -83,6 +94,8 @@ pub fn build(c: &Case) -> (Vec<Ent>, Vec<Vec<u8>>, u8) {
         Class::DirOntoFile => ds = 1,             // existing file
         Class::DirWithoutRecursive | Class::DuplicateTargets => ds = 2 + ds % 2, // a directory, so that only the missing -r is wrong
         Class::MissingSource if c.nvalid >= 1 => ds = 2 + ds % 2,
+        Class::MissingSourceViaGlob => ds = 2 + ds % 2,
+        Class::DirOntoFileMapped => ds = 2,
         _ => {}
     }
     match ds {
@@ -237,6 +250,56 @@ pub fn build(c: &Case) -> (Vec<Ent>, Vec<Vec<u8>>, u8) {
             paths = valid;
             paths.push(s("d"));
         }
+        Class::SameDirViaSpelling => {
+            recursive = true;
+            paths = match c.variant % 4 {
+                0 => vec![s("vd"), s("./vd")],
+                1 => vec![s("./vd"), s("vd")],
+                2 => {
+                    ents.push(Ent::link(b"vdl", b"vd"));
+                    vec![s("vd"), s("vdl")]
+                }
+                _ => vec![s("vd"), s("by/../vd")],
+            };
+        }
+        Class::OwnDirAmongValid => {
+            // valid sources live in sub-directories and would land in ".", v0 already lives there
+            let mut v: Vec<Vec<u8>> = [s("vd/inner"), s("by/keep"), s("sub/f")][..std::cmp::max(1, std::cmp::min(nvalid, 3))].to_vec();
+            let p = std::cmp::min(c.pos as usize, v.len());
+            v.insert(p, s("v0"));
+            paths = v;
+            paths.push(s(if c.variant & 2 != 0 { "./" } else { "." }));
+        }
+        Class::DirOntoFileMapped => {
+            ents.push(Ent::file(b"d/vd", Content::data(12, 9)).with_mtime(1_400_000_003, 6));
+            if valid.is_empty() {
+                valid.push(s("v1"));
+            }
+            let p = std::cmp::min(pos, valid.len());
+            valid.insert(p, s("vd"));
+            paths = valid;
+            paths.push(s("d"));
+            recursive = true;
+        }
+        Class::BlockSizeZero => {
+            flags.extend([s("--block-size"), s(["0", "0KB", "00", "0MB"][c.variant as usize % 4])]);
+            valid.truncate(if dest_is_dir { 3 } else { 1 });
+            if valid.is_empty() {
+                valid.push(s("v0"));
+            }
+            paths = valid;
+            paths.push(s("d"));
+        }
+        Class::MissingSourceViaGlob => {
+            flags.push(s("--glob"));
+            if valid.is_empty() {
+                valid.push(s("v0"));
+            }
+            let p = std::cmp::min(pos, valid.len());
+            valid.insert(p, s(if c.variant & 2 != 0 { "no/such/file" } else { "nonexistent" }));
+            paths = valid;
+            paths.push(s("d"));
+        }
         Class::BadGlob => {
             flags.push(s("--glob"));
             valid.insert(pos, s(["v[", "***", "v[0", "a/***/b"][c.variant as usize % 4]));
@@ -274,6 +337,14 @@ pub fn judge(c: &Case, rec: &mut Rec) -> Verdict {
     }
     let post = match snapshot(&sb.root) {
         Ok(s) => s,
+        Err(e) if e.raw_os_error() == Some(libc::ENAMETOOLONG) => {
+            // the sandbox could be walked before the run and cannot any more: something grew beyond PATH_MAX
+            return Verdict::faild(
+                format!("C16|{:?}|side-effects", c.class),
+                format!("rejected or failed invocation ({:?}) left a tree deeper than PATH_MAX behind (exit {:?})", c.class, out.code),
+                json!({"argv": argv.iter().map(|a| esc(a)).collect::<Vec<_>>(), "exit": out.code, "stderr": out.stderr_s()}),
+            );
+        }
         Err(e) => return Verdict::Inconclusive(format!("snapshot: {e}")),
     };
     let dsn = ["absent", "file", "emptydir", "populated"][ds as usize % 4];
